@@ -25,6 +25,7 @@ InputClause(e, k) == Only({JacClause(e, k, J) : J \in {Jacobian(e.ty, e.prog, e.
 
 RECURSIVE FirstBad(_, _)
 FirstBad(e, k) == IF k > Len(e.vals) THEN "ok"
+                  ELSE IF k \in {e.skip[i] : i \in DOMAIN e.skip} THEN FirstBad(e, k + 1)   \* a constant input: no gradient asked
                   ELSE IF Len(e.jac) < k THEN "jac_missing_in" \o ToString(k)
                   ELSE LET c == InputClause(e, k) IN
                        IF c # "ok" THEN c \o "_in" \o ToString(k) ELSE FirstBad(e, k + 1)
